@@ -328,11 +328,14 @@ enum Subj {
   Behavior(subjects::BehaviorSubject<'static, Val>),
   Replay(subjects::ReplaySubject<'static, Val>),
   Async(subjects::AsyncSubject<'static, Val>),
+  /// no subject at all: an Observable::create source whose observers are driven directly
+  Raw(Arc<Mutex<Vec<Observer<'static, Val>>>>),
 }
 
 impl Subj {
   fn make(kind: &str) -> Option<Subj> {
     Some(match kind {
+      "raw" => Subj::Raw(Arc::new(Mutex::new(Vec::new()))),
       "subject" => Subj::Plain(subjects::Subject::new()),
       "behavior" => Subj::Behavior(subjects::BehaviorSubject::new(Val::Int(1))),
       "replay" => Subj::Replay(subjects::ReplaySubject::new()),
@@ -354,10 +357,24 @@ impl Subj {
       (Subj::Async(x), Step::N(i)) => x.next(Val::Int(*i)),
       (Subj::Async(x), Step::E(i)) => x.error(mk_err(*i)),
       (Subj::Async(x), Step::C) => x.complete(),
+      (Subj::Raw(os), st) => {
+        let os: Vec<_> = os.lock().unwrap().clone();
+        for o in os {
+          match st {
+            Step::N(i) => o.next(Val::Int(*i)),
+            Step::E(i) => o.error(mk_err(*i)),
+            Step::C => o.complete(),
+          }
+        }
+      }
     }
   }
   fn observable(&self) -> Observable<'static, Val> {
     match self {
+      Subj::Raw(os) => {
+        let os = os.clone();
+        Observable::create(move |s| os.lock().unwrap().push(s))
+      }
       Subj::Plain(s) => s.observable(),
       Subj::Behavior(s) => s.observable(),
       Subj::Replay(s) => s.observable(),
@@ -389,7 +406,7 @@ impl Family for C19Subjects {
       }
     });
     Json::obj(vec![
-      ("subject", Json::str(*rng.pick(&["subject", "subject", "behavior", "replay", "async"]))),
+      ("subject", Json::str(*rng.pick(&["subject", "subject", "behavior", "replay", "async", "raw", "raw"]))),
       ("threads", Json::Arr(threads)),
       ("observers", Json::Arr((0..rng.range(1, 2)).map(|_| Json::str(*rng.pick(&["direct", "direct", "map"]))).collect())),
       ("cb_probes", Json::Int(rng.below(3) as i64)),
@@ -460,6 +477,7 @@ impl Family for C19Subjects {
       "subject" => "subject",
       "behavior" => "behavior_subject",
       "replay" => "replay_subject",
+      "raw" => "observer",
       _ => "async_subject",
     };
     let mut violations = Vec::new();
